@@ -13,7 +13,9 @@ def templates(tier, seed):
     ts = [Template(tid, tmpl.pick(fn, ["channel"]), args) for tid, fn, args in tmpl.standard_cases(tier)]
     import tmpl_pl
 
-    ts += [Template(tid, tmpl.pick(fn, ["channel"]), args) for tid, fn, args in tmpl_pl.standard_cases(tier) + tmpl_pl.subsample_cases(tier)[-3:]]
+    ts += [Template(tid, tmpl.pick(fn, ["channel", "schema_unchanged", "config_unchanged", "subsample/channel"]), args)
+           for tid, fn, args in tmpl_pl.standard_cases(tier) + tmpl_pl.subsample_cases(tier)[-3:]]
+    ts += [Template(tid, tmpl.pick(fn, LABELS), args, max_paths=20000) for tid, fn, args in tmpl_pl.fault_cases(tier)]
     N = 2
     for which in tmpl.UNUSUAL:
         ts.append(Template(f"U/{which}/N={N}", tmpl.pick(tmpl.unusual_case, LABELS + ["input_unchanged"]), (which, N)))
